@@ -819,7 +819,8 @@ def _only_agg(c):
 def _precedes(ka, kb, dialect, tie):
     """z3 Bool: row with keys ka sorts strictly before row with keys kb (tie broken by slot order `tie`, which the
     obligation must make irrelevant by requiring total order keys)"""
-    res = z3.BoolVal(False)   # all keys equal -> not strictly before (ties handled by caller assumption)
+    res = z3.BoolVal(bool(tie))   # all keys equal: slot order (rows with equal keys AND equal values are interchangeable;
+                                  # obligations assume total keys wherever tied rows could differ)
     for (a, desc, nulls), (b, _, _) in reversed(list(zip(ka, kb))):
         a, b = unify(a, b)
         if a.sort == 'bool': a, b = to_int(a), to_int(b)
